@@ -82,6 +82,10 @@ func c01Workload[T any](rep *Report, codec Codec[T], api string, rng *rand.Rand,
 	var wg sync.WaitGroup
 	for i := 0; i < n; i++ {
 		r := &callRec{tag: i, str: fmt.Sprintf("s%d-%d", i, rng.Intn(1000)), fail: rng.Intn(4) == 0}
+		if r.fail {
+			// error texts as programs produce them: indented, ending in a newline
+			r.str = []string{"", "  ", "\t"}[i%3] + r.str + []string{"\n", "", " \n\n"}[(i/3)%3]
+		}
 		if rng.Intn(2) == 0 {
 			r.from = "A"
 		} else {
@@ -461,6 +465,23 @@ func c10Workload[T any](rep *Report, codec Codec[T], api string, msgs []string) 
 	ra, _, _ := p.A.AnyRemote()
 	rb, _, _ := p.B.AnyRemote()
 	rep.sample(desc)
+	// a closure whose declared error result is a CONCRETE pointer type: its nil pointer is "no error" and stays nil,
+	// its non-nil value arrives with its message; the link survives
+	for _, rem := range []Remote{ra, rb} {
+		rep.Evaluations++
+		r := withWatchdog(func() (any, error) {
+			return rem.ErrClosure(context.Background(), 3, func(ctx context.Context, i int) *ZooErr {
+				if i == 1 {
+					return &ZooErr{"typed boom"}
+				}
+				return nil
+			})
+		})
+		if !r.ok || r.err != nil || r.val.(string) != "nil|typed boom|nil" {
+			rep.addViolation("property", "C10:"+api+":typed-nil-error", fmt.Sprintf("a closure declared to return *ZooErr returned nil, &ZooErr{\"typed boom\"}, nil: the callee saw %v (call error %v); want \"nil|typed boom|nil\"", r.val, r.err), desc)
+			return
+		}
+	}
 	for i, m := range msgs {
 		rem, dir := ra, "A->B"
 		if i%2 == 1 {
